@@ -439,6 +439,8 @@ def find_eoi_overrun(exe, cfg, env, span=200):
     ratio = io_ratio(cfg)
     for N in range(1, span):
         est = int(N / ratio) + 50
+        if est > 2000000:           # (huge up-sampling factors: keep the output buffers of the search small)
+            break
         ops = [create_line(cfg), "limit %d" % N, "feed %d %d 0" % (N, est)]
         tr = run_trace(exe, ops, env, timeout=60)
         if tr.rc != 0 or not tr.results:
